@@ -160,4 +160,13 @@ def byteDemands (iso : Bool) (p : Nat → Bool) (c : Nat) : Bool :=
 def isoFamily (name : List Nat) : Bool :=
   name.take 7 == [105, 115, 111, 56, 56, 53, 57] || name == [108, 97, 116, 105, 110, 49]
 
+/-- the name (already normalised) denotes 7-bit ASCII: no byte ≥ 0x80 is text in it -/
+def asciiFamily (name : List Nat) : Bool :=
+  name == [97, 115, 99, 105, 105] || name == [117, 115, 97, 115, 99, 105, 105]
+
+/-- the demands on the predicate a *name* resolves to: the general ones, C1 rejection for the
+ISO-8859 family, and for ASCII rejection of every byte ≥ 0x80 -/
+def nameDemands (name : List Nat) (p : Nat → Bool) (c : Nat) : Bool :=
+  byteDemands (isoFamily name) p c && (!(asciiFamily name && 0x80 ≤ c) || !p c)
+
 end Cppcms.C14.Spec
